@@ -375,6 +375,16 @@ pub enum ConfigError {
     /// corrupt or split every proxied message.
     #[error("invalid sozu_id_header on listener {address}: {error}")]
     InvalidSozuIdHeader { address: String, error: String },
+    /// A `[clusters.<id>.health_check]` block fails
+    /// [`validate_health_check_config`] (zero interval / timeout / threshold,
+    /// URI not starting with `/` or carrying control bytes). The state and the
+    /// workers refuse such a cluster, so loading it would leave its frontends
+    /// and backends configured for a cluster that does not exist.
+    #[error("invalid health_check for cluster {cluster_id}: {reason}")]
+    InvalidHealthCheck {
+        cluster_id: String,
+        reason: &'static str,
+    },
 }
 
 /// An HTTP, HTTPS or TCP listener as parsed from the `Listeners` section in the toml
@@ -2204,6 +2214,14 @@ impl FileClusterConfig {
         // PRE: every frontend that converts cleanly must survive into the built
         // cluster — no frontend is silently dropped during conversion.
         let requested_frontend_count = self.frontends.len();
+        if let Some(health_check) = self.health_check.as_ref() {
+            validate_health_check_config(&health_check.to_proto()).map_err(|reason| {
+                ConfigError::InvalidHealthCheck {
+                    cluster_id: cluster_id.to_owned(),
+                    reason,
+                }
+            })?;
+        }
         match self.protocol {
             FileClusterProtocolConfig::Tcp => {
                 let mut has_expect_proxy = None;
